@@ -345,6 +345,19 @@ def tr_second():
     return out
 
 
+def tr_adaptive_theta():
+    """utils.adaptive_theta: indices of the cells with theta * max < est, ALWAYS a 1-d index array"""
+    fn = t2.find_def(t2.parse('skfem/utils.py'), 'adaptive_theta')
+    if [a.arg for a in fn.args.args] != ['est', 'theta', 'max'] or [t2.src(d) for d in fn.args.defaults] != ['0.5', 'None']:
+        raise TranslateError('adaptive_theta signature')
+    s = _srcs(_body(fn))
+    want = ['if max is None:\n    return np.nonzero(theta * np.max(est) < est)[0].astype(np.int32)\n'
+            'else:\n    return np.nonzero(theta * max < est)[0].astype(np.int32)']
+    if s != want:
+        raise TranslateError('adaptive_theta body: ' + repr(s))
+    return {'select': 'theta*max<est', 'default_max': 'np.max(est)', 'result': 'np.nonzero(...)[0] (1-d)'}
+
+
 # ----------------------------------------------------------------------------- emit
 
 def _nref(r):
@@ -358,10 +371,11 @@ def _tpl(t):
 def gen_text():
     so, ff, sp = tr_sort_mesh(), tr_find_facets(), tr_split()
     tri, line, tet, sec = tr_adaptive_tri(), tr_adaptive_line(), tr_adaptive_tet(), tr_second()
+    theta = tr_adaptive_theta()
     from .c12_src import tr_refined
     tr_refined()      # Mesh.refined: the adaptive branch normalises the selection (bool mask -> indices, empty -> int32); fail closed
     L = ['(* GENERATED by vlib/c13_src.py from skfem/mesh/mesh_tri_1.py, mesh_line_1.py, mesh_tet_1.py — do not edit *)',
-         'From Coq Require Import List Arith Bool.', 'Import ListNotations.',
+         'From Coq Require Import List Arith Bool ZArith QArith.', 'Import ListNotations.',
          'Require Import Model.C12_Refine Model.C13_Adaptive.', 'Local Open Scope nat_scope.', '']
     L.append('(* _adaptive_sort_mesh: the local vertex permutations (identity, swap under ix01, swap under ix12) and the edge each mask selects *)')
     L.append('Definition gen_sort_perms : list (list nat) := [' + '; '.join('[' + '; '.join(map(str, p)) + ']' for p in so['perms']) + '].')
@@ -384,6 +398,10 @@ def gen_text():
         L.append(f'  | {ci} => {off} + j * n {ci} + r   (* {nm} *)')
         acc.append(f'{len(tp)} * n {ci}')
     L.append('  | _ => 0\n  end.')
+    L.append('''(* utils.adaptive_theta(est, theta, max): np.nonzero(theta * (max or np.max(est)) < est)[0] *)
+Definition gen_theta_select (est : list Q) (theta : Q) (mx : option Q) : list nat :=
+  let m := match mx with Some v => v | None => qmax est end in
+  filter (fun k => Qltb (theta * m)%Q (nth k est 0%Q)) (seq 0 (length est)).''')
     L.append('(* MeshTet1._adaptive: the two children of one bisection of the edge (t0, t1) *)')
     L.append('Definition gen_tet_bisect : list (list nref) := [' + '; '.join(_tpl(t) for t in tet['templates']) + '].')
     L.append('(* MeshLine1._adaptive: [t0, mid] and [mid, t1] *)')
@@ -413,4 +431,4 @@ Definition gen_line_adapt_children (nt : nat) (marked : list nat) (k : nat) : li
     else:
         L.append('''(* MeshLine1._adaptive passes no _subdomains to replace(): the old dictionary is kept as it is *)
 Definition gen_line_adapt_children (nt : nat) (marked : list nat) (k : nat) : list nat := [k].''')
-    return '\n'.join(L) + '\n', {'sort': so, 'rule': ff, 'split': sp, 'tri': tri, 'line': line, 'tet': tet, 'second': sec}
+    return '\n'.join(L) + '\n', {'sort': so, 'rule': ff, 'split': sp, 'tri': tri, 'line': line, 'tet': tet, 'second': sec, 'theta': theta}
